@@ -1668,6 +1668,24 @@ class _EqualService(object):
         return self.tag
 
 
+def _make_annotated():
+    class K(object):
+        @modifiers.annotate(a=int)
+        def m(self, a, b=1):
+            return (a, b)
+
+        @modifiers.annotate(str, b=int)
+        @modifiers.kwoargs('b')
+        def n(self, a, b=1):
+            return (a, b)
+    return K
+
+
+def _prov(sig):
+    src = getattr(sig, 'sources', None) or {}
+    return (str(sig), tuple(sorted((k, len(v)) for k, v in src.items())))
+
+
 def _probe_calls(sig, fn, cases):
     out = []
     for args, kwargs in cases:
@@ -1734,6 +1752,11 @@ def _preempt_scenarios():
         # objects using as_forged: first-ever access of an emulate=True special method from two threads
         'emulated_class_getitem': (lambda: {'cls': _make_emulated_cgi()}, both_calls(lambda st: st['cls'].__class_getitem__), None),
         'emulated_new': (lambda: {'cls': _make_emulated_new()}, both(lambda st: st['cls']), None),
+        # related objects: the function that carries an annotate-stored signature, its bound method and the class-level
+        # access, parameters AND provenance (what one retrieval returns must not depend on the others having happened)
+        'annotate_related': (lambda: (lambda K: {'cls': K, 'o': K()})(_make_annotated()),
+                             (lambda st: tuple(_prov(f(getattr(x, nm))) for nm in ('m', 'n') for x in (st['cls'], st['o'], st['cls'])
+                                               for f in (sigtools.signature, inspect.signature))), None),
     }
     for n in ('as_forged', 'decorated_fn', 'wdecorated_fn', 'declared_emulated', 'method_decorated', 'method_pok', 'pok_fn',
               'user_forged', 'method_fwd', 'instance_signature', 'plain_wrapper', 'method_auto', 'partial', 'declared'):
@@ -1744,7 +1767,7 @@ def _preempt_scenarios():
     return sc
 
 
-PREEMPT_SCENARIOS = ('pok_method_kwo', 'pok_method_pos', 'pok_method_auto', 'pok_published_stack', 'pok_equal_instances', 'emulated_class_getitem', 'emulated_new', 'as_forged',
+PREEMPT_SCENARIOS = ('annotate_related', 'pok_method_kwo', 'pok_method_pos', 'pok_method_auto', 'pok_published_stack', 'pok_equal_instances', 'emulated_class_getitem', 'emulated_new', 'as_forged',
                      'decorated_fn', 'wdecorated_fn', 'declared_emulated', 'method_decorated', 'method_pok', 'pok_fn', 'user_forged',
                      'method_fwd', 'instance_signature', 'plain_wrapper', 'method_auto', 'partial', 'declared', 'wrapped_fn',
                      'wrapped_twice')
@@ -1757,7 +1780,7 @@ def rt_preempt(req):
     obtain what a lone caller obtains, and afterwards the shared object must still answer the same."""
     _, name, lo, hi, stride = req
     make, do, b_extra = _preempt_scenarios()[name]
-    windowed = name in ('wrapped_fn', 'wrapped_twice', 'instance_signature')    # have __wrapped__ / __signature__ to delete and restore
+    windowed = name in ('wrapped_fn', 'wrapped_twice', 'instance_signature', 'annotate_related')    # have __wrapped__ / __signature__ to delete and restore
     try:
         expected = do(make())
     except Exception as e:  # noqa
